@@ -92,7 +92,7 @@ def check(F, R, Gm):
     except Exception:
         maps = None
     if not maps or len(maps.get("bin", [])) != 1 or len(maps.get("un", [])) != 1:
-        R.ob("CONVERT-EXP", "anchor", False, "packages/rooc/src/parser/rules_parser/exp_parser.rs", "Rule->BinOp / Rule->UnOp maps not found")
+        R.ob("CONVERT-EXP", "anchor", False, "packages/rooc/src/parser/rules_parser/exp_parser.rs", "Rule->BinOp / Rule->UnOp maps not found", undecided=True)
         return
     sp = spellings(Gm, maps)
     R.fn("parser::rules_parser::exp_parser::parse_exp")
